@@ -32,11 +32,11 @@ CLAIMED = {
   "vehicle property: sampled option space; the stored init segment is everything before the first moof",
   TECH + "independent box diff as response invariant"),
  "C15": ("exploration",
-  "intruder actors holding the credentials of a lesser role (anonymous, guest JWT from /api/refresh/access, user, media-vs-other-users) harvest every CSRF token, cookie and JWT that role can legitimately obtain and fire well-formed mutation recipes for every state-changing handler plus a generic sweep over the routing table discovered at run time x {GET,HEAD,POST,PUT,DELETE}; a route-agnostic state oracle compares the committed content of every table (Token excluded) and the blob directory before and after every delivered request and checks each difference against the documented role policy; a CSRF probe (authorised client) submits fresh, reused, cross-service, cross-cookie, tampered and salt-swapped tokens on operations with unique visible effects under duplicated requests, lost responses, clock jumps past the 20-minute row lifetime and server restarts; legitimate manager traffic is interleaved. Second stage (one run in six): two or three management requests carrying the same CSRF token are served concurrently on baton-passing threads that park at every SQL statement, commit and blob-file operation; the seeded scheduler picks the interleaving and the token must be accepted at most once",
+  "intruder actors holding the credentials of a lesser role (anonymous, guest JWT from /api/refresh/access, user, media-vs-other-users) harvest every CSRF token, cookie and JWT that role can legitimately obtain and fire well-formed mutation recipes for every state-changing handler plus a generic sweep over the routing table discovered at run time x {GET,HEAD,POST,PUT,DELETE}; a route-agnostic state oracle compares the committed content of every table (Token excluded) and the blob directory before and after every delivered request and checks each difference against the documented role policy; a CSRF probe (authorised client) submits fresh, reused, cross-service, cross-cookie, tampered and salt-swapped tokens on operations with unique visible effects under duplicated requests, lost responses, clock jumps past the 20-minute row lifetime and server restarts; legitimate manager traffic is interleaved. Second stage (one run in six): two or three management requests carrying the same CSRF token are served concurrently on baton-passing threads that park at every SQL statement, commit and blob-file operation; the seeded scheduler picks the interleaving (uniform switching or one request stalling after a commit while another runs to its end) and the token must be accepted at most once - in the burst and when one of its requests is sent again afterwards",
   "sampling; outside the second-stage bursts requests are atomic; cookie-session login runs on a shim of Flask-Login, JWT paths on the real library",
   TECH + "state-diff oracle attributing every durable change to one request"),
  "C17": ("exploration",
-  "an authorised manager actor issues seeded sequences of 4-28 management operations over the real API (create/edit/delete stream, upload of forged, fixture and truncated media, index, edit and delete media, add/edit/delete key, create/edit/delete multi-period stream, stream defaults) with existing and non-existing targets and repeated names, while restarts, duplicated requests and lost responses are injected; after every delivered request the durable state is read with a private sqlite3 connection and checked for referential consistency, unique names and ownership of deletions; liveness probes ask every listed stream / multi-period stream for manifests of random templates and modes (never 5xx) and every uploaded-and-indexed file is read back through the on-demand and segment routes. Second stage (one run in four): two or three management operations are served concurrently on baton-passing threads (pre-emption at every SQL statement, commit, rollback, blob save, unlink and replace and at the application's upload lock; SQLite and application lock waits are scheduled, a deadlock is resolved like a busy timeout; nearly half of the bursts are conflict pairs aimed at one object: two adds of one name, an edit next to a delete, two uploads of one file name, a double delete); the same referential rules are checked on the state the burst leaves, and whether that state equals some sequential order of the requests is counted in the evidence. Crash points (one run in eight): a management request is served on a baton thread and the process dies at its k-th seam (k enumerated by the run index over SQL statements, commit, rollback, blob save/unlink/replace); uncommitted changes are lost, blob files stay as written, the server restarts and the same rules plus the read-back are evaluated",
+  "an authorised manager actor issues seeded sequences of 4-28 management operations over the real API (create/edit/delete stream, upload of forged, fixture and truncated media, index, edit and delete media, add/edit/delete key, create/edit/delete multi-period stream, stream defaults) with existing and non-existing targets and repeated names, while restarts, duplicated requests and lost responses are injected; after every delivered request the durable state is read with a private sqlite3 connection and checked for referential consistency, unique names and ownership of deletions; liveness probes ask every listed stream / multi-period stream for manifests of random templates and modes (never 5xx) and every uploaded-and-indexed file is read back through the on-demand and segment routes. Second stage (one run in four): two or three management operations are served concurrently on baton-passing threads (pre-emption at every SQL statement, commit, rollback, blob save, unlink and replace and at the application's upload lock; SQLite and application lock waits are scheduled, a deadlock is resolved like a busy timeout; nearly half of the bursts are conflict pairs aimed at one object: two adds of one name, an edit next to a delete, two uploads of one file name, a double delete; the seed picks per burst between uniform switching and a stall strategy in which one request stops after a commit, lock or file step while another runs to its end); the same referential rules are checked on the state the burst leaves, and whether that state equals some sequential order of the requests is counted in the evidence. Crash points (one run in eight): a management request is served on a baton thread and the process dies at its k-th seam (k enumerated by the run index over SQL statements, commit, rollback, blob save/unlink/replace); uncommitted changes are lost, blob files stay as written, the server restarts and the same rules plus the read-back are evaluated",
   "sampling; outside the bursts requests are atomic; disk-error faults (ENOSPC/EIO) and power-loss semantics are not injected; a crash is modelled as a BaseException at the seam (finally-blocks of the application still run); linearizability of bursts is measured (probes) but not judged because no listed property states it",
   TECH + "invariants on durable state after every event + liveness probes"),
  "C20": ("exploration",
